@@ -1,4 +1,6 @@
 import IbModel.Proofs.Validation
+import IbModel.Proofs.ValidationEngine
+import IbModel.Props.C11
 import IbModel.Generated.Tables
 /-!
 # C17 — validation passes exactly the valid records and accounts for every invalid one
@@ -12,7 +14,16 @@ Reading guide. `validate : α → VResult ε` is the user's `Validate::validate`
 operator's `apply` produced on one partition. `ValidatorSpec validate mode c op` is the per-partition contract;
 §1 proves it for both operators, §2 derives everything about whole runs from it, for **every** list of
 partitions `ps` (not only the contiguous chunks `split` produces) and **every** interleaving of the
-mutex-protected pushes of concurrently running partitions.
+mutex-protected pushes of concurrently running partitions. §2d ties `runSeq` / `runPar` / `runStages` to the shared
+engine model (`Model/Engine.lean`: they ARE `execSeq` / `execPar` on C17's chains) and, through C11's transparency
+theorems, to the two checkpointing engines; §2e is a validator behind a barrier (one partition, rows in hasher
+order); §2f a join whose two sides validate.
+
+Scope. Modelled and run: `validate_with_mode`, `validate_skip_invalid`, `validate_fail_fast`,
+`validate_values_with_mode`, `validate_values_skip_invalid` (every public builder), `ErrorCollector::{new, add_error,
+error_count, errors}`, `combine_validations`, on `from_vec` sources, through `collect_seq`, `collect_par` and
+`Runner::run_collect` with and without a checkpoint configuration. Outside: `ErrorCollector::{clear, print_errors,
+to_json, write_to_file}` and `validators::*` (not part of the statement), sources other than `from_vec`.
 -/
 namespace IB.Validation
 
@@ -460,6 +471,188 @@ theorem runParts_collector_is_interleaving (op : List α → Outcome α ε) (ps 
 theorem sourcePartitions_is_partitioning (n : Nat) (rows : List α) :
     (sourcePartitions n rows).flatten = rows := sourcePartitions_flatten n rows
 
+/-! ## 2d. C17's runs ARE the shared engine model, and the checkpointing engines change nothing
+
+`runSeq` / `runPar` / `runStages` above are definitions of this file's model. The engine every pipeline property uses
+is `Model/Engine.lean` (`IB.execSeq`, `IB.execPar`: the transliteration of `runner.rs`), generic in the partition
+type. Instantiated with effect-carrying partitions (`Proofs/ValidationEngine.lean`: a partition = its rows, or
+`none` once a `panic!` unwound it, + the pushes made on its behalf + the panics raised; a block step = `dynOfStep`;
+terminal concatenation / barrier input = `concatRuns`) the engine model run on the chain `Source → Stateless(block)`
+returns exactly C17's run — so "both execution modes" in every theorem of §2 is about the shared engine model, not
+about a private abstraction. NB the engine model applies the remaining operators to a partition that has panicked
+as the identity and still visits the other partitions; real rayon may not start them. That is invisible in what the
+theorems state about a failed run (`output = none`; the collector after a FAILED run is not specified by the
+property and not compared by the harness). -/
+
+/-- a block that consists of one validator is that validator -/
+theorem blockOp_validator (op : List α → Outcome α ε) : blockOp [BlockOp.validator op] = op := by
+  funext rows
+  simp [blockOp, applyBlock]
+
+/-- **sequential**: `exec_seq` (engine model) on `Source(rows) → Stateless(block)` returns `runSeq` of the block -/
+theorem runSeq_is_engine_execSeq (ops : List (BlockOp α ε)) (rows : List α) :
+    IB.execSeq (chainOf ops rows) = .ok (runSeq (blockOp ops) rows) := execSeq_chainOf ops rows
+
+/-- **parallel**: `exec_par` (engine model) with `n` requested partitions returns `runPar` of the block: same clamp
+    `n.max(1).min(len.max(1))`, same split, every step on every partition in order, partitions concatenated in order -/
+theorem runPar_is_engine_execPar (ops : List (BlockOp α ε)) (n : Nat) (rows : List α) :
+    IB.execPar concatRuns (chainOf ops rows) n = .ok (runPar (blockOp ops) n rows) := execPar_chainOf ops n rows
+
+/-- the plain `VALIDATE` requests: one validator as the whole block -/
+theorem validator_run_is_engine (op : List α → Outcome α ε) (n : Nat) (rows : List α) :
+    IB.execSeq (chainOf [BlockOp.validator op] rows) = .ok (runSeq op rows)
+    ∧ IB.execPar concatRuns (chainOf [BlockOp.validator op] rows) n = .ok (runPar op n rows) := by
+  have := runSeq_is_engine_execSeq [BlockOp.validator op] rows
+  have := runPar_is_engine_execPar [BlockOp.validator op] n rows
+  simp_all [blockOp_validator]
+
+/-- chains with barriers: `Source → Stateless(first) → (GroupByKey → Stateless(b))*` in the engine model is
+    `runStages` — the first block on the source partitions, every later block on the ONE partition its barrier
+    produced (`regroup` = what the barrier does to the order of the rows) -/
+theorem runStages_is_engine (regroup : List α → List α) (first : List (BlockOp α ε))
+    (later : List (List (BlockOp α ε))) (n : Nat) (rows : List α) :
+    IB.execSeq (chainStages regroup first later rows)
+      = .ok (runStages regroup (blockOp first) (later.map blockOp) [rows])
+    ∧ IB.execPar concatRuns (chainStages regroup first later rows) n
+      = .ok (runStages regroup (blockOp first) (later.map blockOp) (sourcePartitions n rows)) :=
+  ⟨execSeq_chainStages regroup first later rows, execPar_chainStages regroup first later n rows⟩
+
+/-- **`Runner { checkpoint_config: Some(enabled) }`**: the two checkpointing engines (`exec_seq_with_checkpointing`
+    has its own copy of the node loop; `exec_par_with_checkpointing` wraps `exec_par`) return, on every chain with
+    validators in it — barriers included —, for every policy, retention, `auto_recover`, clock and content of a
+    usable checkpoint directory, the very `Run` of the plain engines: same output, same failure, and **the same
+    pushes into the collector** (a validator applied twice would show as a longer `collector`). C11's transparency
+    theorems applied to C17's chains. -/
+theorem validate_checkpointed_is_plain (env : IB.CheckpointRun.Env) (hsafe : IB.CheckpointRun.SafeDecoder env)
+    (cfg : IB.CheckpointRun.Config) (hdir : IB.CheckpointRun.DirUsable env cfg) (fs : IB.Checkpoint.FS)
+    (regroup : List α → List α) (first : List (BlockOp α ε)) (later : List (List (BlockOp α ε))) (n : Nat)
+    (rows : List α) :
+    (IB.CheckpointRun.execSeqCkpt env cfg fs (chainStages regroup first later rows)).outcome
+      = .finished (.ok (runStages regroup (blockOp first) (later.map blockOp) [rows]))
+    ∧ (IB.CheckpointRun.execParCkpt concatRuns env cfg fs (chainStages regroup first later rows) n).outcome
+      = .finished (.ok (runStages regroup (blockOp first) (later.map blockOp) (sourcePartitions n rows))) := by
+  rw [IB.CheckpointRun.ckpt_transparent env hsafe cfg hdir fs,
+    IB.CheckpointRun.ckpt_transparent_par concatRuns env hsafe cfg hdir fs]
+  rw [(runStages_is_engine regroup first later n rows).1, (runStages_is_engine regroup first later n rows).2]
+  exact ⟨rfl, rfl⟩
+
+/-- without a barrier (`later = []`) `runStages` is the plain run, so the statement above covers `VALIDATE` / `VPIPE` -/
+theorem runStages_nil (regroup : List α → List α) (first : List α → Outcome α ε) (parts : List (List α)) :
+    runStages regroup first [] parts = runParts first parts := rfl
+
+/-! ## 2e. A validator behind a barrier
+
+After `group_by_key` + ungroup the rows arrive in ONE partition, grouped by key, the keys in `HashMap` order: some
+permutation `regroup mid` of the rows `mid` that reached the barrier. Record ids (`pair_<idx>`) therefore depend on
+the hasher; everything the property states does not: -/
+
+/-- the kept records and the logged error lists add up to the input, for any validation function -/
+theorem filter_filterMap_length (validate : α → VResult ε) (xs : List α) :
+    (xs.filter (isValid validate)).length + (xs.filterMap validate).length = xs.length := by
+  induction xs with
+  | nil => rfl
+  | cons x xs ih => cases hx : validate x <;> simp [isValid, hx] <;> omega
+
+/-- **a validator after a barrier accounts exactly for the rows that reached it, whatever order the barrier gave
+    them**: it fails iff fail-fast and one of them is invalid; otherwise it passes a permutation of the valid ones
+    (their order inside the regrouped partition); its entries are appended to what the earlier stages logged, and
+    their error lists are, as a multiset, those of the invalid rows (log mode with collector; nothing otherwise);
+    `|kept| + |new entries| = |rows that reached the validator|` when logging. -/
+theorem after_barrier_accounts {validate : α → VResult ε} {mode : Mode} {c : Bool} {b : List α → Outcome α ε}
+    (S : ValidatorSpec validate mode c b) (regroup : List α → List α) (hperm : ∀ xs, (regroup xs).Perm xs)
+    (r : Run α ε) (mid : List α) (hmid : r.output = some mid) :
+    ((afterBarrier regroup r b).output = none ↔ (mode = .failFast ∧ ∃ x ∈ mid, validate x ≠ none))
+    ∧ (∀ kept, (afterBarrier regroup r b).output = some kept → kept.Perm (mid.filter (isValid validate)))
+    ∧ ∃ new, (afterBarrier regroup r b).collector = r.collector ++ new
+        ∧ (new.map (·.errors)).Perm (if mode = .logAndContinue ∧ c = true then mid.filterMap validate else [])
+        ∧ (mode = .logAndContinue → c = true → ∀ kept, (afterBarrier regroup r b).output = some kept →
+            kept.length + new.length = mid.length) := by
+  have hmem : (∃ x ∈ regroup mid, validate x ≠ none) ↔ ∃ x ∈ mid, validate x ≠ none := by
+    constructor <;> rintro ⟨x, hx, hv⟩
+    · exact ⟨x, (hperm mid).mem_iff.mp hx, hv⟩
+    · exact ⟨x, (hperm mid).mem_iff.mpr hx, hv⟩
+  have hpan := S.panic_iff (regroup mid)
+  rw [hmem] at hpan
+  have hout : (afterBarrier regroup r b).output
+      = if (b (regroup mid)).panic.isNone then some (b (regroup mid)).valid else none := by
+    simp [afterBarrier, hmid]
+  have hcol : (afterBarrier regroup r b).collector = r.collector ++ (b (regroup mid)).pushes := by
+    simp [afterBarrier, hmid]
+  have hkept : ∀ kept, (afterBarrier regroup r b).output = some kept →
+      kept = (regroup mid).filter (isValid validate) := by
+    intro kept hk
+    rw [hout] at hk
+    cases hp : (b (regroup mid)).panic with
+    | some e => simp [hp] at hk
+    | none =>
+      simp only [hp, Option.isNone_none, ↓reduceIte, Option.some.injEq] at hk
+      rw [← hk, S.valid_eq _ hp]
+  refine ⟨?_, ?_, (b (regroup mid)).pushes, hcol, ?_, ?_⟩
+  · rw [hout, ← hpan]
+    cases hp : (b (regroup mid)).panic <;> simp
+  · intro kept hk
+    rw [hkept kept hk]
+    exact (hperm mid).filter _
+  · rw [S.pushes_errors]
+    split
+    · exact (hperm mid).filterMap _
+    · exact List.Perm.refl _
+  · intro hm hc kept hk
+    rw [hkept kept hk]
+    have h1 : ((b (regroup mid)).pushes.map (·.errors)).length = ((regroup mid).filterMap validate).length := by
+      rw [S.pushes_errors]; simp [hm, hc]
+    rw [List.length_map] at h1
+    rw [h1, filter_filterMap_length, (hperm mid).length_eq]
+
+/-- the regrouping the driver evaluates is a permutation, so `after_barrier_accounts` applies to it -/
+theorem regroupBy_perm (key : α → Int) (xs : List α) : (regroupBy key xs).Perm xs := regroupBy_perm' key xs
+
+/-- hence for a whole chain `Source → first → barrier → validator`: the validator after the barrier sees exactly
+    what the first block let through (any partitioning of the source), and the statement above applies to it -/
+theorem stages_one_barrier (regroup : List α → List α) (first b : List α → Outcome α ε) (parts : List (List α)) :
+    runStages regroup first [b] parts = afterBarrier regroup (runParts first parts) b := rfl
+
+/-! ## 2f. Validators inside the sides of a join -/
+
+section join
+variable {β₁ β₂ γ : Type} {vL : β₁ → VResult ε} {vR : β₂ → VResult ε} {mode : Mode} {c : Bool}
+  {opL : List β₁ → Outcome β₁ ε} {opR : List β₂ → Outcome β₂ ε}
+
+/-- **a join whose two sides validate** (any partitioning of either source, both sides sharing mode and collector):
+    the run fails iff fail-fast and some record of EITHER side is invalid; otherwise the join sees exactly the valid
+    records of each side, in order; in skip / log mode the collector receives the error lists of the left side's
+    invalid records followed by the right side's (log mode with collector), and nothing otherwise. -/
+theorem join_sides_validate (SL : ValidatorSpec vL mode c opL) (SR : ValidatorSpec vR mode c opR)
+    (join : List β₁ → List β₂ → List γ) (lp : List (List β₁)) (rp : List (List β₂)) :
+    (runJoin opL opR join lp rp).output
+      = (if mode = .failFast ∧ ((∃ x ∈ lp.flatten, vL x ≠ none) ∨ (∃ y ∈ rp.flatten, vR y ≠ none)) then none
+         else some (join (lp.flatten.filter (isValid vL)) (rp.flatten.filter (isValid vR))))
+    ∧ (mode ≠ .failFast → (runJoin opL opR join lp rp).collector.map (·.errors)
+        = if mode = .logAndContinue ∧ c = true then lp.flatten.filterMap vL ++ rp.flatten.filterMap vR else []) := by
+  have hl := run_output SL lp
+  have hr := run_output SR rp
+  have hcl : (runParts opL lp).collector.map (·.errors)
+      = if mode = .logAndContinue ∧ c = true then lp.flatten.filterMap vL else [] := by
+    rw [run_collector_errors SL lp, ← SL.pushes_errors]; simp [runSeq, runParts]
+  have hcr : (runParts opR rp).collector.map (·.errors)
+      = if mode = .logAndContinue ∧ c = true then rp.flatten.filterMap vR else [] := by
+    rw [run_collector_errors SR rp, ← SR.pushes_errors]; simp [runSeq, runParts]
+  constructor
+  · unfold runJoin
+    by_cases hm : mode = .failFast
+    · by_cases h1 : ∃ x ∈ lp.flatten, vL x ≠ none
+      · simp only [hl, hm, h1, and_self, ↓reduceIte, true_or]
+      · by_cases h2 : ∃ y ∈ rp.flatten, vR y ≠ none
+        · simp only [hl, hr, hm, h1, h2, and_false, and_self, ↓reduceIte, or_true]
+        · simp only [hl, hr, hm, h1, h2, and_false, ↓reduceIte, or_self]
+    · simp only [hl, hr, hm, false_and, ↓reduceIte]
+  · intro hm
+    unfold runJoin
+    simp only [hl, hr, hm, false_and, ↓reduceIte, List.map_append, hcl, hcr]
+    split <;> simp
+
+end join
+
 /-! ## 3. `combine_validations` -/
 
 /-- combining succeeds iff every part succeeded -/
@@ -625,5 +818,54 @@ example : combineValidations ([some [1], none, some [2, 3]] : List (VResult Nat)
 example : sourcePartitions 2 [1, 2, 3, 4, 5] = [[1, 2, 3], [4, 5]] := by decide
 example : sourcePartitions 64 [1, 2, 3] = [[1], [2], [3]] := by decide
 example : sourcePartitions 0 [1, 2, 3] = [[1, 2, 3]] := by decide
+
+/-- the engine tie is about non-trivial chains: two partitions, a logging validator, a step that invalidates,
+    a second validator — evaluated through the engine model -/
+example :
+    ∃ r, IB.execPar concatRuns
+        (chainOf [.validator (validateOp demoValidate .logAndContinue true),
+                  .map (fun r : Nat × VResult Nat => if r.1 = 0 then (0, some [7]) else r),
+                  .validator (validateOp demoValidate .logAndContinue true)]
+          [(0, none), (1, some [1]), (2, none), (3, some [4])]) 2 = .ok r
+      ∧ r.output = some [(2, none)]
+      ∧ r.collector = [⟨some "record_1", [1]⟩, ⟨some "record_0", [7]⟩, ⟨some "record_1", [4]⟩] := by
+  refine ⟨_, runPar_is_engine_execPar _ _ _, ?_⟩
+  decide
+
+/-- `regroupBy`: grouped by key, arrival order inside a group -/
+example : regroupBy (fun kv : Int × Nat => kv.1) [(2, 0), (1, 1), (2, 2), (1, 3)] = [(1, 1), (1, 3), (2, 0), (2, 2)] := by
+  decide
+
+/-- a validator behind a barrier: one partition, so the ids count through the regrouped rows; the first stage's
+    entries come first -/
+example :
+    let v := validateValuesOp (κ := Int) (fun r : VResult Nat => r) .logAndContinue true
+    let rows : List (Int × VResult Nat) := [(2, some [1]), (1, none), (2, none), (1, some [5])]
+    let brk : Int × VResult Nat → Int × VResult Nat := fun r => if r.2 = none then (r.1, some [9]) else r
+    (runStages (regroupBy (·.1)) v [blockOp [.map brk, .validator v]] (sourcePartitions 2 rows)).collector
+      = [⟨some "pair_0", [1]⟩, ⟨some "pair_1", [5]⟩, ⟨some "pair_0", [9]⟩, ⟨some "pair_1", [9]⟩]
+    ∧ (runStages (regroupBy (·.1)) v [blockOp [.map brk, .validator v]] (sourcePartitions 2 rows)).output = some [] := by
+  decide
+
+/-- the hypotheses of `after_barrier_accounts` are satisfiable: `regroupBy` is a permutation (`regroupBy_perm`), the
+    operators meet `ValidatorSpec` (`validateValuesOp_spec`), and a first stage that completes has `output = some _` -/
+example : (runParts (validateValuesOp (κ := Int) (fun r : VResult Nat => r) .logAndContinue true)
+    [[(2, some [1]), (1, none)], [(2, none)]]).output = some [(1, none), (2, none)] := by decide
+
+/-- a join whose sides validate: left keeps keys 1, 2; right keeps 1; the collector holds left entries, then right -/
+example :
+    let vL := validateValuesOp (κ := Int) (fun r : VResult Nat => r) .logAndContinue true
+    let r := runJoin vL vL innerJoin [[(1, none), (3, some [1])], [(2, none)]] [[(1, none), (2, some [])]]
+    r.output = some [(1, ((none : VResult Nat), (none : VResult Nat)))]
+    ∧ r.collector = [⟨some "pair_1", [1]⟩, ⟨some "pair_1", []⟩] := by decide
+
+/-- the hypotheses of `validate_checkpointed_is_plain` hold for the running code's decoder (limit re-read from the
+    code) and a checkpoint directory that can be created and listed (C11's `current_decoder_safe`, `dirUsable_of`) -/
+example (cfg : IB.CheckpointRun.Config) :
+    let env : IB.CheckpointRun.Env :=
+      { H := id, dec := IB.Checkpoint.currentCfg IB.Generated.ckptDecodeLimit, clock := id,
+        progress := fun _ _ => 0, isDir := fun _ => false }
+    IB.CheckpointRun.SafeDecoder env ∧ IB.CheckpointRun.DirUsable env cfg :=
+  ⟨IB.CheckpointRun.current_decoder_safe _ _ (Nat.le_refl _) rfl, IB.CheckpointRun.dirUsable_of _ _ rfl rfl⟩
 
 end IB.Validation
